@@ -401,33 +401,8 @@ def order(R, ctx):
 
 
 def outdir(R, ctx):
-    rid = "C11.outdir"
-    lib = ctx.lib
-    from .. import guards
-    R.rule(rid, "WorkerTree::collect_work (single input file + output): the output path itself is registered as the output *file* only on a "
-                "branch where Resources::is_directory(output) answered false; an existing directory always receives <output>/<input file name>")
-    fn = lib.fn("frontend::worker_tree::WorkerTree::collect_work")
-    if not R.require(rid, "anchor:collect_work", fn is not None, "", "not found"):
-        return
-    fa = ctx.an.fa(fn["path"])
-    M = guards.Mentions(ctx.an)
-    isdir = guards.is_call_named("is_directory")
-    regs = [c for c in thir.calls(fn) if c.get("fname") == "add_source_if_missing"]
-    R.require(rid, "anchor:registrations", len(regs) >= 4, ctx.where(fn), "%d add_source_if_missing calls" % len(regs))
-    n = 0
-    for c in regs:
-        out = c["args"][2]
-        joined = any(y.get("fname") == "join" for y in thir.walk(out) if y.get("k") == "Call")
-        names = {v.get("name") for v in thir.walk(out) if v.get("k") == "Var"}
-        if "output" not in names:
-            continue
-        if joined:
-            continue
-        n += 1
-        ok = any(kd == "else" and M.mentions(fa, cond, isdir, 0) for cond, kd in guards.conditions_of(fa, c))
-        R.ob(rid, "collect_work|bare-output-only-if-not-directory@%d" % n, ok, ctx.where(fn, c.get("ln")),
-             "the output path is used as a file %s" % ("only after is_directory(output) was false" if ok else "without ruling out that it is an existing directory (the file would be written over / next to the directory)"))
-    R.require(rid, "floor", n >= 1, ctx.where(fn), "%d bare-output registrations" % n)
+    """kept as a name: the single-input-file cases are decided by evaluation in `mirror` (rule id C11.outdir)"""
+    return
 
 
 def walk_follows_links(R, ctx):
@@ -622,11 +597,15 @@ def mirror(R, ctx):
             n += 1
             R.ob(rid, "dir:%s->%s" % (inp, out), got == want, ctx.where(cw),
                  "%d files mirrored" % len(FILES) if got == want else "items created: %s; expected %s %s" % (got, want, why))
-    for out, dirs, want_out in (("out", {"out"}, "out/a.lua"), ("out/x.lua", set(), "out/x.lua"), ("o.lua", set(), "o.lua")):
+    R.rule("C11.outdir", "same evaluation for a single input file: an output that is an existing directory -- whatever its name looks like, "
+                         "`out` or `out.d` -- receives <output>/<input file name>; an existing file or a new path with an extension is the "
+                         "output file itself (an existing directory is never written over / treated as a file)")
+    for out, dirs, want_out in (("out", {"out"}, "out/a.lua"), ("out.d", {"out.d"}, "out.d/a.lua"), ("deep/out.lua", {"deep", "deep/out.lua"}, "deep/out.lua/a.lua"),
+                                ("out/x.lua", set(), "out/x.lua"), ("o.lua", set(), "o.lua")):
         got, why = run_("src/a.lua", out, [], dirs, file_input=True)
         want = [tuple(sorted({"src/a.lua", want_out}))]
         n += 1
-        R.ob(rid, "file:src/a.lua->%s%s" % (out, "(dir)" if dirs else ""), got == want, ctx.where(cw), "output %s" % want_out if got == want else "items created: %s; expected %s %s" % (got, want, why))
+        R.ob("C11.outdir", "file:src/a.lua->%s%s" % (out, "(existing directory)" if dirs else ""), got == want, ctx.where(cw), "output %s" % want_out if got == want else "items created: %s; expected %s %s" % (got, want, why))
     R.require(rid, "floor:cases", n >= 30, "", "%d input/output spellings evaluated" % n)
 
 
